@@ -125,6 +125,73 @@ fn big_suite<K: BoolKind>(threads: u32) {
     println!("big {} node_count {} sat_count {count} evals {evals:016x} not.node_count {} stored {}", K::NAME, f.node_count(), g.node_count(), mref.with_manager_shared(|m| m.num_inner_nodes()));
 }
 
+/// variable / name bookkeeping (both manager backends implement it separately): every sequence of three calls
+/// out of a small menu, incl. rejected batches with a duplicate behind new names; everything observable is
+/// written to the transcript
+fn names_suite<K: BoolKind>(threads: u32) {
+    let menu: Vec<(&str, Vec<&str>)> = vec![
+        ("add_vars(1)", vec![]),
+        ("add_named", vec!["a", "b"]),
+        ("add_named", vec!["b", "c", "a", "d"]),
+        ("add_named", vec!["", "e", "e"]),
+        ("from_map", vec!["c", "a"]),
+        ("set_name(0)", vec!["a"]),
+        ("set_name(1)", vec![""]),
+    ];
+    let mut d = Dig::new();
+    let mut lines = 0u64;
+    for i in 0..menu.len() {
+        for j in 0..menu.len() {
+            for k in 0..menu.len() {
+                let mref: MRefOf<K> = K::new_manager(64, 16, threads);
+                let mut obs: Vec<String> = vec![];
+                for &c in &[i, j, k] {
+                    let (what, names) = &menu[c];
+                    let r: String = mref.with_manager_exclusive(|m| match *what {
+                        "add_vars(1)" => format!("{:?}", m.add_vars(1)),
+                        "add_named" => format!("{:?}", m.add_named_vars(names.iter().map(|s| s.to_string())).map_err(|e| (e.name.clone(), e.present_var, e.added_vars.clone()))),
+                        "from_map" => {
+                            let mut map = oxidd_core::util::VarNameMap::new();
+                            map.add_named(names.iter().map(|s| s.to_string())).unwrap();
+                            format!("{:?}", m.add_named_vars_from_map(map).map_err(|e| (e.name.clone(), e.present_var, e.added_vars.clone())))
+                        }
+                        w => {
+                            let v: u32 = if w == "set_name(0)" { 0 } else { 1 };
+                            if v < m.num_vars() {
+                                format!("{:?}", m.set_var_name(v, names[0]).map_err(|e| (e.name.clone(), e.present_var)))
+                            } else {
+                                "skipped".into()
+                            }
+                        }
+                    });
+                    let state: String = mref.with_manager_shared(|m| {
+                        let nv = m.num_vars();
+                        format!(
+                            "vars={nv} levels={} named={} names={:?} lookup={:?}",
+                            m.num_levels(),
+                            m.num_named_vars(),
+                            (0..nv).map(|v| m.var_name(v).to_string()).collect::<Vec<_>>(),
+                            ["a", "b", "c", "d", "e"].iter().map(|n| m.name_to_var(n)).collect::<Vec<_>>()
+                        )
+                    });
+                    obs.push(format!("{what}{names:?} -> {r}; {state}"));
+                }
+                // a variable of the final manager is usable
+                let usable = mref.with_manager_shared(|m| (0..m.num_vars()).map(|v| K::F::var(m, v).is_ok()).collect::<Vec<_>>());
+                let line = format!("{} | usable={usable:?}", obs.join(" | "));
+                for b in line.bytes() {
+                    d.add(b as u64);
+                }
+                lines += 1;
+                if i == 2 && j == 0 {
+                    println!("names {} [{i},{j},{k}] {line}", K::NAME);
+                }
+            }
+        }
+    }
+    println!("names {} sequences {lines} digest {:016x}", K::NAME, d.0);
+}
+
 fn suites<K: Ext>(threads: u32, mism: &mut u64) {
     big_suite::<K>(threads);
     let n = 3;
@@ -591,6 +658,12 @@ fn main() {
     let threads: u32 = args.get(1).and_then(|s| s.parse().ok()).unwrap_or(1);
     let depth: usize = args.get(2).and_then(|s| s.parse().ok()).unwrap_or(3);
     let mut mism = 0u64;
+    // reorderings go through the concurrent bubble sort / parallel level update wherever the build has one
+    // (it is otherwise only selected from 65536 nodes on); the observable result must not depend on it
+    oxidd_reorder::VERIF_FORCE_CONCURRENT.store(true, std::sync::atomic::Ordering::Relaxed);
+    names_suite::<Bdd>(threads);
+    names_suite::<Bcdd>(threads);
+    names_suite::<Zbdd>(threads);
     suites::<Bdd>(threads, &mut mism);
     suites::<Bcdd>(threads, &mut mism);
     suites::<Zbdd>(threads, &mut mism);
